@@ -412,6 +412,55 @@ pub fn run(ctx: &Ctx) {
     if RISTRETTO_BASEPOINT_COMPRESSED.0 != ris::encode(&ed::basepoint()) || RISTRETTO_BASEPOINT_POINT.compress() != RISTRETTO_BASEPOINT_COMPRESSED {
         ctx.violation("ris.basepoint", "basepoint constants", json!({"kind": "ris_const"}));
     }
+    // ---- sums, double-base, basepoint table, defaults
+    {
+        use curve25519_dalek::scalar::Scalar;
+        let pool = rpool(5);
+        for a in 0..pool.len() {
+            for b in 0..pool.len() {
+                for c in [None, Some((a + b) % pool.len())] {
+                    ctx.eval(1);
+                    let mut idx = vec![a, b];
+                    if let Some(c) = c {
+                        idx.push(c);
+                    }
+                    let got: RistrettoPoint = idx.iter().map(|i| pool[*i].real).sum();
+                    let want = idx.iter().fold(ed::ID, |acc, i| acc.add(&pool[*i].pt));
+                    if got.compress().0 != ris::encode(&want) {
+                        ctx.violation("ris.sum", "Sum differs", json!({"kind": "ris_sum", "indices": idx}));
+                    }
+                }
+                // a*A + b*B
+                ctx.eval(1);
+                let (sa, sb) = (Scalar::from(a as u64 + 2), Scalar::from(b as u64 + 3));
+                let got = guarded(|| RistrettoPoint::vartime_double_scalar_mul_basepoint(&sa, &pool[a].real, &sb).compress().0);
+                let want = pool[a].pt.mul(&U::from_u64(a as u64 + 2)).add(&ed::mul_base(&U::from_u64(b as u64 + 3)));
+                if got != Ok(ris::encode(&want)) {
+                    ctx.violation("ris.vartime_double_scalar_mul_basepoint", "differs", json!({"kind": "ris_double_base", "a": a, "b": b}));
+                }
+            }
+            // MulAssign, table create / basepoint
+            ctx.eval(2);
+            let s7 = Scalar::from(7u8);
+            let mut q = pool[a].real;
+            q *= &s7;
+            if q.compress().0 != ris::encode(&pool[a].pt.mul(&U::from_u64(7))) {
+                ctx.violation("ris.mul_assign", "differs", json!({"kind": "ris_mul_assign", "a": a}));
+            }
+            #[cfg(feature = "tables")]
+            {
+                use curve25519_dalek::ristretto::RistrettoBasepointTable;
+                let t = RistrettoBasepointTable::create(&pool[a].real);
+                if t.basepoint().compress().0 != ris::encode(&pool[a].pt) || (&t * &s7).compress().0 != ris::encode(&pool[a].pt.mul(&U::from_u64(7))) || (&s7 * &t).compress() != (&t * &s7).compress() {
+                    ctx.violation("ris.basepoint_table", "create/basepoint/mul differ", json!({"kind": "ris_table", "a": a}));
+                }
+            }
+        }
+        ctx.eval(1);
+        if RistrettoPoint::default() != RistrettoPoint::identity() || CompressedRistretto::default().0 != [0u8; 32] || CompressedRistretto::identity().0 != [0u8; 32] {
+            ctx.violation("ris.default", "Default / identity", json!({"kind": "ris_default"}));
+        }
+    }
     // ---- batched double-and-compress on every <= 3 tuple (with repetition) of a pool that
     // contains the identity, 4-torsion representatives of it, and ordinary elements
     {
